@@ -70,14 +70,16 @@ def spell(rng, typ, v, strings_only):
             forms += [v, 1 if v else 0]
         return rng.choice(forms), bool(v)
     if typ == "int":
-        forms = [str(int(v))]
+        forms = [str(int(v)), str(int(v)), "+%d" % int(v)]
         if not strings_only:
-            forms += [int(v)]
+            forms += [int(v), int(v)]
         return rng.choice(forms), int(v)
     if typ == "float":
-        forms = [str(v), repr(float(v))]
+        # every spelling float() reads as this number: plain, repr, signed, exponent notation
+        forms = [str(v), repr(float(v)), "+" + repr(float(v)), "%e" % v, "%E" % v, "%.3e" % v]
+        forms = [f for f in forms if float(f) == float(v)]
         if not strings_only:
-            forms += [v, float(v)]
+            forms += [v, float(v), v, float(v)]
         return rng.choice(forms), float(v)
     return str(v), str(v)
 
@@ -122,7 +124,10 @@ def gen_plan(rng, tier, i, seed):
     elif r < 0.35:
         n, v = rng.choice(MALFORMED)
         extra = ["malformed", n, v]
+    # history: an earlier version of the same profile file (other values) was loaded by the same process
+    prior = route in ("roundtrip", "options", "options_explicit") and rng.random() < 0.5
     return {"w": gen_world(seed, i % cfg["worlds"]), "route": route, "settings": settings, "options": options,
+            "prior": prior,
             "extra": extra, "dashes": rng.random() < (0.6 if route in ("cli", "profile_cli", "dump") else 0.3),
             "write_hashseed": rng.choice([0, 1, 2, 3]), "read_hashseed": rng.choice([0, 1, 2, 3, 4, 5])}
 
@@ -143,7 +148,7 @@ def execute(plan, runner, rundir):
     wd, (worlddir, man) = _materialise(runner, w)
     common = {"worlddir": worlddir, "man": man, "rundir": rundir, "gene": w["world"]["genes"][0]["name"],
               "route": plan["route"], "settings": plan["settings"], "options": plan["options"],
-              "extra": plan["extra"], "dashes": plan["dashes"]}
+              "extra": plan["extra"], "dashes": plan["dashes"], "prior": plan.get("prior", False)}
     res = {}
     if plan["route"] in ("roundtrip", "dump", "options", "options_explicit", "profile_cli"):
         res["write"] = runner.segment(dict(common, kind="write", hashseed=plan["write_hashseed"]))
@@ -195,7 +200,7 @@ def _judge_profile_cli(plan, outcome, env, malformed):
 def judge(plan, outcome):
     vs = []
     rd = outcome["read"]
-    env = {"route": plan["route"], "extra": plan["extra"]}
+    env = {"route": plan["route"], "extra": plan["extra"], "earlier_version_loaded": bool(plan.get("prior"))}
     exp = expected_table(plan)
     malformed = plan["extra"] and plan["extra"][0] == "malformed"
     if plan["route"] == "profile_cli":
@@ -263,6 +268,10 @@ def shrink(plan):
         p = copy.deepcopy(plan)
         p["read_hashseed"] = p["write_hashseed"] = 0
         yield p
+    if plan.get("prior"):
+        p = copy.deepcopy(plan)
+        p["prior"] = False
+        yield p
 
 
 def new_stats():
@@ -289,6 +298,8 @@ def update_stats(acc, plan, out):
         acc["unobserved"] += 1
     if "write" in out:
         acc["restarts"] += 1
+    if out["read"].get("prior_loaded"):
+        acc["prior"] = acc.get("prior", 0) + 1
     if {s[0] for s in plan["settings"]} & {o[0] for o in plan["options"]}:
         acc["overlap"] += 1
 
@@ -310,7 +321,8 @@ def evidence(acc):
             "plans": acc["plans"],
             "routes": acc["routes"],
             "fault_kinds_fired": {"process_restart_between_writer_and_reader": acc["restarts"],
-                                  "malformed_value": acc["malformed"], "unknown_name": acc["unknown"]},
+                                  "malformed_value": acc["malformed"], "unknown_name": acc["unknown"],
+                                  "earlier_version_of_the_same_file_loaded_first": acc.get("prior", 0)},
             "probes": {"runs_with_observed_profile": acc["observed"], "runs_unobserved": acc["unobserved"],
                        "options_and_explicit_overlap": acc["overlap"], "booleans_set_to_false": acc["false_bools"]},
             "components": {
@@ -420,6 +432,26 @@ def run_segment(seg):
                 res["observed"] = _profile_attrs(c["args"][0][1])
                 return
 
+    if seg.get("prior") and route in ("roundtrip", "options", "options_explicit"):
+        # the file at this path held other values a moment ago and this process loaded it then
+        path = os.path.join(rd, "w", "written.yml") if route == "roundtrip" else os.path.join(rd, "opts.yml")
+        if os.path.exists(path):
+            keep = open(path).read()
+            d = yaml.safe_load(keep) or {}
+            names = list((d.get("options") or {})) or [n for n, *_ in seg["settings"] + seg["options"]]
+            cur = d.get("options") or {}
+            d["options"] = {n: ([x for x in PARAMS[n][1] if str(x).lower() != str(cur.get(n)).lower()]
+                                or PARAMS[n][1])[-1] for n in names if n in PARAMS}
+            with open(path, "w") as f:
+                f.write(yaml.dump(d, default_flow_style=None))
+            try:
+                Profile.load(gene, path, None)
+                res["prior_loaded"] = True
+            except AldyException:
+                pass
+            with open(path, "w") as f:
+                f.write(keep)
+            SIM.stage_calls.clear()
     try:
         if route == "profile_api":
             p = Profile.load(gene, refbam, parse_cn_region(man["neutral"]), **params)
